@@ -246,6 +246,73 @@ func runAliasTest(c *Case) []string {
 	return t
 }
 
+// AliasList <T|F> nfixed.. nrep.. exp when  =>  digits
+// v3 NewNumberForTesting (T) / NewFiniteNumber (F, rep empty); the caller's slices are overwritten in place right
+// after construction (when 0), after reading one digit (1) or after reading 120 digits (2: between blocks of the
+// lazily memoised digits); then every position is read.
+func runAliasList(c *Case) []string {
+	a := &cur{t: c.Args}
+	ctor := a.next()
+	fixed := a.ints()
+	rep := a.ints()
+	exp := a.int()
+	when := a.int()
+	var n v3.Number
+	var err error
+	if ctor == "F" {
+		var f *v3.FiniteNumber
+		f, err = v3.NewFiniteNumber(fixed, exp)
+		n = f
+	} else {
+		n, err = v3.NewNumberForTesting(fixed, rep, exp)
+	}
+	if err != nil {
+		return []string{"ERR"}
+	}
+	switch when {
+	case 1:
+		n.At(0)
+	case 2:
+		for p := 0; p < 120; p++ {
+			n.At(p)
+		}
+	}
+	for i := range fixed {
+		fixed[i] = 9 - fixed[i]
+	}
+	for i := range rep {
+		rep[i] = 9 - rep[i]
+	}
+	var t toks
+	var ds []int
+	for p := 0; p < len(fixed)+2*len(rep)+3; p++ {
+		ds = append(ds, n.At(p))
+	}
+	t.ints(ds)
+	return t
+}
+
+func genAliasList(r *Rng, emit func(Case), n int) {
+	for i := 0; i < n; i++ {
+		var t toks
+		ctor := []string{"T", "F", "F"}[r.Intn(3)]
+		t.s(ctor)
+		fixed := randDigits(r, r.Pick([]int{1, 2, 6, 8, 99, 100, 101, 150, 250}))
+		if fixed[0] == 0 {
+			fixed[0] = 1 + r.Intn(9)
+		}
+		t.ints(fixed)
+		if ctor == "T" && r.Bool() {
+			t.ints(randDigits(r, r.Range(1, 4)))
+		} else {
+			t.ints(nil)
+		}
+		t.i(r.Pick([]int{-2, 0, 3}))
+		t.i(r.Intn(3))
+		emit(Case{Ver: "v3", Op: "AliasList", Args: t})
+	}
+}
+
 func genC14(tier string, r *Rng, emit func(Case)) {
 	n := 150
 	if tier == "thorough" {
@@ -311,6 +378,7 @@ func genC14(tier string, r *Rng, emit func(Case)) {
 		t.i(r.Pick([]int{-2, 0, 3}))
 		emit(Case{Ver: "v3", Op: "AliasTest", Args: t})
 	}
+	genAliasList(r, emit, n/2)
 	// Positions handed out earlier are not altered by later use of the builder (same histories as C11)
 	generators["C11"]("quick", r, func(c Case) {
 		if c.Op == "Hist" && r.Intn(8) == 0 {
@@ -321,5 +389,5 @@ func genC14(tier string, r *Rng, emit func(Case)) {
 
 func init() {
 	register("C14", genC14, map[string]runner{"AliasCtor": runAliasCtor, "AliasPat": runAliasPat, "AliasTest": runAliasTest,
-		"Hist": runC11Hist})
+		"AliasList": runAliasList, "Hist": runC11Hist})
 }
